@@ -287,7 +287,7 @@ func (u *URI) parse(host, uri []byte, isTLS bool) error {
 		return ErrorInvalidURI
 	}
 
-	if len(host) == 0 || bytes.Contains(uri, strColonSlashSlash) {
+	if len(host) == 0 || hasSchemeDelimiter(uri) {
 		scheme, newHost, newURI := splitHostURI(host, uri)
 		if len(scheme) > 0 && !isValidScheme(scheme) {
 			return fmt.Errorf("invalid scheme %q", scheme)
@@ -924,6 +924,14 @@ func (u *URI) WriteTo(w io.Writer) (int64, error) {
 // String returns full uri.
 func (u *URI) String() string {
 	return string(u.FullURI())
+}
+
+// hasSchemeDelimiter reports whether uri carries "://" where a scheme can stand
+// in front of it, i.e. before any path, query or fragment. A "://" further
+// down, e.g. in a query value, does not make an origin-form target absolute.
+func hasSchemeDelimiter(uri []byte) bool {
+	n := bytes.Index(uri, strColonSlashSlash)
+	return n >= 0 && bytes.IndexAny(uri[:n], "/?#") < 0
 }
 
 func splitHostURI(host, uri []byte) ([]byte, []byte, []byte) {
